@@ -111,6 +111,8 @@ impl RequestHandler<DocumentHighlightRequest> for DocumentHighlightRequestHandle
         let defs = ctx.find_definitions(analysis, &params.text_document_position_params);
         let highlights = defs
             .into_iter()
+            // (only symbols: the definition of an imported file is the whole file)
+            .filter(|(ty, _)| matches!(ty, DefinitionType::Symbol(_)))
             .flat_map(|(_, def)| {
                 def.definition_and_usages()
                     .into_iter()
